@@ -62,6 +62,9 @@ def _hostile_pdu(draw):
     if which == 'unknown-fc':
         return bytes([draw(st.sampled_from([0, 9, 10, 13, 14, 25, 42, 44, 90, 127, 128, 129, 255]))]) + draw(st.binary(max_size=6))
     if which == 'unknown-sub':
+        if draw(st.booleans()):
+            # undefined 16-bit sub-function whose LOW byte is a defined one (0x0804 is not Force Listen Only Mode)
+            return bytes([8, draw(st.integers(1, 255)), draw(st.sampled_from([0, 1, 2, 3, 4, 10, 11, 12, 13, 14, 15, 16, 17, 18, 20, 21]))]) + bytes([0, 0])
         return bytes([8]) + bytes([draw(st.integers(0, 255)), draw(st.sampled_from([5, 6, 7, 8, 9, 22, 99, 255]))]) + draw(st.binary(max_size=4))
     if which == 'empty':
         return bytes([draw(st.sampled_from([1, 2, 3, 4, 5, 6, 8, 15, 16, 20, 21, 22, 23, 24, 43]))])
@@ -120,6 +123,24 @@ def _case(draw):
 
 def strategy(tier):
     return _case().filter(lambda c: len(c['stream']) > 0)
+
+
+def sweeps(tier):
+    """Diagnostic requests whose 16-bit sub-function is undefined but shares its low (or high) byte with a defined one: none of
+    them may be taken for the defined function (Force Listen Only Mode silences a Twisted server for good)."""
+    defined = [0, 1, 2, 3, 4, 10, 11, 12, 13, 14, 15, 16, 17, 18, 20, 21]
+    his = range(1, 256) if tier == 'thorough' else [1, 2, 3, 4, 8, 0x10, 0x20, 0x40, 0x80, 0xFF]
+    cases = []
+    for fe in ('tw_tcp', 'sync_tcp', 'aio_udp'):
+        for hi in his:
+            for lo in defined:
+                for sub in ((hi << 8) | lo, (lo << 8) | hi if lo else None):
+                    if sub is None or sub in defined:
+                        continue
+                    pdu = bytes([8, sub >> 8, sub & 0xFF, 0, 0])
+                    cases.append({'frontend': fe, 'framing': 'tcp', 'uid': 1, 'single': True, 'cuts': ['whole'],
+                                  'stream': refframe.build('tcp', 1, pdu, 7, 0).hex()})
+    return [('undefined-diagnostic-sub-functions-near-defined-ones', cases, tier == 'thorough')]
 
 
 def allowed_values(framing, stream, chunks=None):
